@@ -28,7 +28,7 @@ func (a *act) execInstr(in ssa.Instruction, st *State, reach Term) *State {
 				z := Term{fmt.Sprintf("((as const (Array Int %s)) %s)", l.Sort, zeroOf(l.Sort).S), arrSort(SInt, l.Sort)}
 				e.heapSet(st, name, store(h, r, z))
 			}
-			if at.Len() <= 16 {
+			if at.Len() <= 128 {
 				if st.known == nil {
 					st.known = map[string][]Val{}
 				}
@@ -278,25 +278,31 @@ func (a *act) loadLoc(lp *LocPtr, et types.Type, st *State) Val {
 		off, n, ft := e.sub(lp.BaseType, lp.Path)
 		ls := e.layout(lp.BaseType)
 		ts := make([]Term, n)
+		bounds := make([]Term, n)
 		for i := 0; i < n; i++ {
 			l := ls[off+i]
-			h := e.heapGet(st, objHeapName(lp.BaseType, l.Path), arrSort(SInt, l.Sort))
+			name := objHeapName(lp.BaseType, l.Path)
+			h := e.heapGet(st, name, arrSort(SInt, l.Sort))
 			ts[i] = sel(h, lp.Base)
+			bounds[i] = st.heapBound(name)
 		}
 		v := Val{Typ: ft, T: ts}
-		e.assumeWF(v, st)
+		e.assumeWFb(v, st, bounds)
 		return v
 	case pkElem:
 		off, n, ft := e.sub(lp.BaseType, lp.Path)
 		ls := e.layout(lp.BaseType)
 		ts := make([]Term, n)
+		bounds := make([]Term, n)
 		for i := 0; i < n; i++ {
 			l := ls[off+i]
-			h := e.heapGet(st, elemHeapName(lp.BaseType, l.Path), arrSort(SInt, arrSort(SInt, l.Sort)))
+			name := elemHeapName(lp.BaseType, l.Path)
+			h := e.heapGet(st, name, arrSort(SInt, arrSort(SInt, l.Sort)))
 			ts[i] = sel(sel(h, lp.Base), lp.Idx)
+			bounds[i] = st.heapBound(name)
 		}
 		v := Val{Typ: ft, T: ts}
-		e.assumeWF(v, st)
+		e.assumeWFb(v, st, bounds)
 		return v
 	}
 	panic("loadLoc")
@@ -428,7 +434,9 @@ func (a *act) havocAll(st *State) {
 			st.locals[k] = e.freshVal("esc", v.Typ, st)
 		}
 	}
+	st.hbound = nil
 	na := e.cur.log.fresh("alloc", SInt)
+	st.epochBound = na
 	e.cur.log.assert(app(SBool, ">=", na, st.alloc))
 	st.alloc = na
 }
